@@ -31,8 +31,10 @@ Definition f_zero : f64 := B754_zero 53 1024 false.
 (** `i64 as f64` (also u64/usize as f64): round to nearest even; never overflows *)
 Definition of_Z (z : Z) : f64 := binary_normalize 53 1024 Hprec53 Hmax1024 mode_NE z 0 false.
 Definition f_one : f64 := of_Z 1.
-Definition f_max_safe : f64 := of_Z max_safe_integer.
-Definition f_min_safe : f64 := of_Z min_safe_integer.
+(** MAX_SAFE_INTEGER / MIN_SAFE_INTEGER = +-(2^53 - 1) as doubles; Pins.v checks that these
+    bit patterns are [of_Z] of the constants read from conversions.rs *)
+Definition f_max_safe : f64 := b64_of_bits 4845873199050653695.
+Definition f_min_safe : f64 := b64_of_bits 14069245235905429503.
 (** f64::EPSILON = 2^-52 *)
 Definition f_epsilon : f64 := b64_of_bits 4372995238176751616.
 
@@ -146,21 +148,23 @@ Definition bnot_impl (a : f64) : option f64 :=
 
 (** SPEC of the bitwise operators: both operands in the safe-integer range, the result is the
     operation on their integer values; shift counts are non-negative and taken modulo 64; a
-    left shift whose mathematical result does not fit a signed 64-bit integer is an error. *)
+    left shift whose mathematical result does not fit a signed 64-bit integer is an error.
+    The integer result converts to the nearest double ([of_Z], exact up to 2^53 and for every
+    shifted safe integer: C09_of_Z_exact) and passes the same finite check as every number. *)
 Definition safe (a : f64) : bool := fle f_min_safe a && fle a f_max_safe.
 Definition bitop_spec (f : Z -> Z -> Z) (a b : f64) : option f64 :=
-  if safe a && safe b then Some (of_Z (f (trunc_Z a) (trunc_Z b))) else None.
+  if safe a && safe b then num_new (of_Z (f (trunc_Z a) (trunc_Z b))) else None.
 Definition shl_spec (a b : f64) : option f64 :=
   if safe a && safe b && negb (flt b f_zero) then
     let r := trunc_Z a * 2 ^ (trunc_Z b mod 64) in
-    if (i64_min <=? r) && (r <=? i64_max) then Some (of_Z r) else None
+    if (i64_min <=? r) && (r <=? i64_max) then num_new (of_Z r) else None
   else None.
 Definition shr_spec (a b : f64) : option f64 :=
   if safe a && safe b && negb (flt b f_zero) then
-    Some (of_Z (trunc_Z a / 2 ^ (trunc_Z b mod 64)))
+    num_new (of_Z (trunc_Z a / 2 ^ (trunc_Z b mod 64)))
   else None.
 Definition bnot_spec (a : f64) : option f64 :=
-  if safe a then Some (of_Z (- trunc_Z a - 1)) else None.
+  if safe a then num_new (of_Z (- trunc_Z a - 1)) else None.
 
 (** input classes on which today's code leaves the spec (known findings) *)
 Definition known_shl_neg (a b : f64) : bool :=      (* negative base whose shift overflows *)
